@@ -49,27 +49,31 @@ def parse_listing(lst):
         if m and m.group(2).strip():
             toks = m.group(2).split()
             groups, k = [], 0
+            width = None
             while k < len(toks):
                 g = GROUP.match(toks[k])
-                if not g:
+                if not g or len(g.group(1)) % 2:
                     break
                 h = g.group(1)
-                if len(h) % 2:
-                    h = "0" + h
+                # the opcode column has one width per line; a shorter/longer hex-looking token is the mnemonic or an operand
+                if width is not None and len(h) != width and not toks[k].startswith("0x"):
+                    break
+                width = len(h) if width is None else width
                 groups.append(bytes.fromhex(h))
                 k += 1
             text = " ".join(toks[k:])
+            if not text and cur is not None and groups:
+                # a continuation line that carries its own address (extension words): it belongs to the instruction above
+                cur[1].extend(groups)
+                continue
             cur = [int(m.group(1), 16), groups, text, toks, k]
             entries.append(cur)
             continue
         if cur is not None and line[:1] in (" ", "\t") and line.strip():
             toks = line.split()
-            if all(GROUP.match(t) for t in toks):
+            if all(GROUP.match(t) and len(GROUP.match(t).group(1)) % 2 == 0 for t in toks):
                 for t in toks:
-                    h = GROUP.match(t).group(1)
-                    if len(h) % 2:
-                        h = "0" + h
-                    cur[1].append(bytes.fromhex(h))
+                    cur[1].append(bytes.fromhex(GROUP.match(t).group(1)))
                 continue
         if line.strip():
             cur = None if not (cur is not None and line[:1] in (" ", "\t")) else cur
@@ -95,6 +99,8 @@ def judge_listing(cpu, src, files, decode_texts):
         return "rejected", [], None
     img = r.image
     entries, rows, syms, lo, hi = parse_listing(r["lst"])
+    if entries and min(e[0] for e in entries) != 0x100:
+        return "unjudged", [], None         # the listing's address column is not plain hex address units (octal, page/offset): never judged
     viol = []
     covered = {}
     # data dump
@@ -199,12 +205,12 @@ def programs(cpu, quick):
     seed = C12.unique_labels(groups[0]) if groups else []
     if seed:
         a, b = seed[:2], seed[2:]
-        out.append(("data-between", hdr + ".org 0x100\n" + "\n".join(a) + "\n.db 1, 2, 3, 4\n.dw 0x1234, 0x5678\n" + "\n".join(b) + "\n.db 9, 8, 7, 6, 5, 4, 3, 2, 1, 0, 1, 2, 3, 4, 5, 6, 7, 8\n", {}))
-        out.append(("two-segments", hdr + ".org 0x100\n" + "\n".join(a) + "\n.org 0x400\n" + "\n".join(b) + "\n.db 0x55, 0x66, 0x77, 0x88\n", {}))
-        out.append(("macro", hdr + ".macro BODY\n" + "\n".join(a) + "\n.endm\n.org 0x100\nBODY\n.db 1, 2, 3, 4\nBODY\n", {}))
-        out.append(("include", hdr + ".org 0x100\n" + "\n".join(a[:1]) + "\n.include \"inc.inc\"\n.db 1, 2, 3, 4\n", {"inc.inc": "\n".join(b or a) + "\n"}))
-        out.append(("include-list", hdr + ".org 0x100\n.include \"inc.inc\"\n" + "\n".join(a[:1]) + "\n", {"inc.inc": ".list\n" + "\n".join(b or a) + "\n.db 4, 3, 2, 1\n"}))
-        out.append(("repeat", hdr + ".org 0x100\n.repeat 3\n" + "\n".join(a[:1]) + "\n.endr\n.db 1, 2, 3, 4\n", {}))
+        out.append(("data-between", hdr + ".org 0x100\n" + "\n".join(a) + "\n.db 1, 2, 3, 4, 5, 6, 7, 8\n.dw 0x1234, 0x5678, 0x9abc, 0xdef0\n" + "\n".join(b) + "\n.db 9, 8, 7, 6, 5, 4, 3, 2, 1, 0, 1, 2, 3, 4, 5, 6, 7, 8\n", {}))
+        out.append(("two-segments", hdr + ".org 0x100\n" + "\n".join(a) + "\n.org 0x400\n" + "\n".join(b) + "\n.db 0x55, 0x66, 0x77, 0x88, 0x99, 0xaa, 0xbb, 0xcc\n", {}))
+        out.append(("macro", hdr + ".macro BODY\n" + "\n".join(a) + "\n.endm\n.org 0x100\nBODY\n.db 1, 2, 3, 4, 5, 6, 7, 8\nBODY\n", {}))
+        out.append(("include", hdr + ".org 0x100\n" + "\n".join(a[:1]) + "\n.include \"inc.inc\"\n.db 1, 2, 3, 4, 5, 6, 7, 8\n", {"inc.inc": "\n".join(b or a) + "\n"}))
+        out.append(("include-list", hdr + ".org 0x100\n.include \"inc.inc\"\n" + "\n".join(a[:1]) + "\n", {"inc.inc": ".list\n" + "\n".join(b or a) + "\n.db 8, 7, 6, 5, 4, 3, 2, 1\n"}))
+        out.append(("repeat", hdr + ".org 0x100\n.repeat 3\n" + "\n".join(a[:1]) + "\n.endr\n.db 1, 2, 3, 4, 5, 6, 7, 8\n", {}))
         out.append(("labels", hdr + ".org 0x100\nfirst:\n" + "\n".join(a) + "\nsecond:\n.dw first, second\n.export second\n", {}))
     return out
 
@@ -256,6 +262,8 @@ def run(ctx):
                 raise RuntimeError(detail)
             pc["violations"] += 1
             kinds[kind] = kinds.get(kind, 0) + 1
+            if name == "include" and kind in ("line-bytes", "uncovered", "line-text"):
+                kind = "include-unlisted"       # the bytes of a file included without .list are not shown: one finding class of its own
             ctx.violation({"cpu": cpu, "kind": kind, "src": src}, kind, "[%s %s] %s" % (cpu, name, detail), {"cpu": cpu, "name": name, "src": src, "files": files})
     unjudged = sorted(n for n, pc in percpu.items() if pc["accepted"] == 0 or pc["instruction_lines"] == 0)
     samples = [{"cpu": j[0], "program": j[1], "source": j[2].split("\n")[:10]} for j, s, v, n in check.sample(res, 3)]
